@@ -12,8 +12,9 @@ pub fn meta(tier: Tier) -> Meta {
             "Cases = (planner in Auto/Scalar/Sse/Avx, f32|f64, direction, n, entry point in process/in-place/out-of-place/immutable, chunk count, input). \
              (a) complete unit-impulse basis for every n in 1..={nb} (one case = all n columns of the matrix through one entry point, single-chunk calls, analytic reference column exp(-+2*pi*i*j*k/n) in double-double); \
              (b) every n in 0..={dense} with impulses at 0,1,n/2,n-1, a dense uniform vector and one rotating structured family, all 4 planners x 4 entry points; \
+             (b2) every n up to 8192 (quick) / 65536 (thorough) in f32 on the three concrete planners with rotating entry point and direction, every 8th length also in f64; (b3) every prime up to 2^15 / 2^18 on the scalar and AVX planners; \
              (c) {cases} proptest-drawn cases over constructed length families up to {nmax} (Rader/Bluestein primes, Cunningham primes, prime powers, semiprimes, smooth numbers, butterfly products and planner thresholds, AVX row residues, smooth*bigprime), 16 input families, 1-3 chunks; \
-             (d) exact finite-field instantiation of the portable code (see C14 for the full version). \
+             (d) exact finite-field instantiation of the portable code for every n up to 768 / 4096: output must equal sum_j x_j*omega^(-+jk) in GF(p^2) with zero tolerance (see C14 for the full version). \
              Oracle: relative L2 distance to an independent reference DFT (own radix-2+Bluestein FFT in f64 for f32 results, in double-double for f64 results, validated against a naive double-double DFT at start-up) <= 4*B, B = 16*eps*log2(2n). \
              Non-trivial: n >= 2 and a non-zero input; distinct = distinct (planner,type,direction,n,entry,chunks,input) tuples.",
             nb = nb, dense = dense, nmax = nmax, cases = cases
@@ -82,6 +83,58 @@ pub fn worker(ctx: &mut Ctx) {
                 }
             }
         }
+        if ctx.done() {
+            return;
+        }
+    }
+    // (b2) light dense sweep far beyond (b): every n, f32 (cheap f64 reference) on the three concrete planners,
+    //      rotating entry point/direction; every 8th n additionally in f64 against the double-double reference
+    let (light, primes_to, exact_to) = match ctx.tier {
+        Tier::Quick => (8192usize, 1usize << 15, 768usize),
+        Tier::Thorough => (65536, 1 << 18, 4096),
+    };
+    for n in (dense + 1..=light).rev() {
+        if !ctx.mine() {
+            continue;
+        }
+        let dir = DIRS[n % 2];
+        let input = InputSpec::fam(if n % 3 == 0 { "gaussish" } else { "uniform" }, n as u64);
+        for (pi, planner) in [Planner::Scalar, Planner::Sse, Planner::Avx].iter().enumerate() {
+            ctx.exec(&Case::new("C01", "numeric", *planner, Ty::F32, dir, n).with_entry(ENTRIES[(n + pi) % 4]).with_input(input.clone()));
+        }
+        if n % 8 == 0 {
+            for (pi, planner) in [Planner::Scalar, Planner::Sse, Planner::Avx].iter().enumerate() {
+                ctx.exec(&Case::new("C01", "numeric", *planner, Ty::F64, dir.other(), n + 1).with_entry(ENTRIES[(n / 8 + pi) % 4]).with_input(input.clone()));
+            }
+        }
+        if ctx.done() {
+            return;
+        }
+    }
+    // (b3) every prime (Rader/Bluestein decisions, primitive roots, chirps are per-prime) up to a larger bound
+    {
+        let fams = Families::new(primes_to);
+        let primes: Vec<usize> = fams.fams.iter().find(|f| f.0 == "prime_any").map(|f| f.1.clone()).unwrap_or_default();
+        for &q in primes.iter().rev() {
+            if q <= light || !ctx.mine() {
+                continue;
+            }
+            let input = InputSpec::fam("uniform", q as u64);
+            for (pi, planner) in [Planner::Scalar, Planner::Avx].iter().enumerate() {
+                ctx.exec(&Case::new("C01", "numeric", *planner, Ty::F32, DIRS[(q / 2 + pi) % 2], q).with_entry(ENTRIES[(q / 2 + pi) % 4]).with_input(input.clone()));
+            }
+            if ctx.done() {
+                return;
+            }
+        }
+    }
+    // (d) exact finite-field instantiation of the portable code (full version: C14)
+    for n in (1..=exact_to).rev() {
+        if !ctx.mine() {
+            continue;
+        }
+        let fam = if n <= 64 { "whole-basis" } else { "random-field" };
+        ctx.exec(&Case::new("C01", "exact", Planner::Auto, Ty::F64, DIRS[n % 2], n).with_entry(ENTRIES[n % 4]).with_input(InputSpec::fam(fam, n as u64)).with_p(vec![0]));
         if ctx.done() {
             return;
         }
